@@ -89,12 +89,16 @@ def _compile_one(item):
     return ("returned", sorted(defs))
 
 
+def _compile_chunk(chunk):
+    return [_compile_one(x) for x in chunk]
+
+
 def check_strings(chk, family, strings):
     """strings: list of (toks, inl, clauses, tag)"""
     items = [(s[0], s[1], s[2]) for s in strings]
-    ctx = multiprocessing.get_context("fork")
-    with ctx.Pool(16) as p:
-        outs = p.map(_compile_one, items, chunksize=200)
+    from .. import replay as _rp
+    chunks = [items[i:i + 200] for i in range(0, len(items), 200)]
+    outs = [x for o in _rp.pool_map(_compile_chunk, chunks) for x in o]
     n_in = 0
     for (toks, inl, clauses, tag), (what, info) in zip(strings, outs):
         chk.evaluations += 1
